@@ -229,7 +229,7 @@ func genUndSpan(g *vlib.G) {
 				step = 7
 			case s.n == 6:
 				// thorough only: a fixed sample of assignments, cycle-property oracle.
-				step, exact = max(1, total/11)|1, false
+				step, exact = max(1, total/33)|1, false
 				if step%3 == 0 {
 					step += 2
 				}
